@@ -777,6 +777,13 @@ func (t *Terminal) readLine() (line string, err error) {
 		// t.remainder is a slice at the beginning of t.inBuf
 		// containing a partial key sequence
 		readBuf := t.inBuf[len(t.remainder):]
+		if len(readBuf) == 0 {
+			// the buffer is full of a key sequence that never ends (ESC followed by
+			// 255 bytes without a final letter): a zero-length Read returns at once
+			// and would spin here for ever.  Drop the sequence.
+			t.remainder = nil
+			readBuf = t.inBuf[:]
+		}
 		var n int
 
 		t.lock.Unlock()
